@@ -1,4 +1,5 @@
 """C15 — Markdown output keeps table, heading and list structure (Markdown.tla, DocModel.tla)."""
+from concurrent.futures import ThreadPoolExecutor
 from lib import vlib
 from checks.common import absorb, replay_generic
 
@@ -12,6 +13,14 @@ Interpretation choices (soundness first):
 * Merged cells: the grid keeps its nr x nc shape, the text of the merged cell is at its anchor, positions it
   covers are free (empty or a repeat - the statement does not say).  Merges that cover a whole row or a whole
   column are not generated for markup formats (HTML/DOCX/ODT/PPTX), where such a grid is debatable.
+* Header marking of the source is a generated dimension of every table (none / first row / first two / first
+  three / a row that is not at the top / all rows), expressed per format: DOCX rows with w:tblHeader, ODT rows
+  wrapped in table:table-header-rows (a run of marked rows per wrapper), HTML thead with 1..3 rows, rows of th
+  cells in the body, several tbody, a tfoot for the last row, model.Cell.IsHeader, PPTX firstRow (none/first
+  only), XLSX (no header notion: none/first only).  Whatever the source marks, the contract is C15's: the same
+  rows x columns read back, i.e. exactly one delimiter row directly after the first line.  Wrappers / row groups
+  are not placed where they would cut a merged cell (HTML and ODF table models); thead after tbody is not
+  generated (non-conforming HTML, presentation-dependent row order).
 * A header-less table may use its first row as the Markdown header row (GFM has no header-less table); what is
   required is that the grid reads back with the same rows once.
 * Heading level = clamp(level + offset, 1, min(max, 6)) for max in 1..6 (the statement's range; max = 0 "unset"
@@ -38,7 +47,9 @@ Interpretation choices (soundness first):
 EVIDENCE = dict(
     level="model_checking",
     rule="cases = every document of MarkdownMC: tables <= 3x3 with <= MaxSpecial special cells (a|b, x\\ny, empty, "
-         "padded) at every position x header/header-less x every fitting 2-cell/4-cell merge, small tables over the full "
+         "padded) at every position x six header markings of the source (none, first, first two, first three, a middle row, "
+         "all rows; per format: w:tblHeader, table-header-rows, thead/th/tbody/tfoot, IsHeader, firstRow) x every fitting "
+         "2-cell/4-cell merge, small tables over the full "
          "cell alphabet, 540 heading cases (9 levels x offsets -2..7 x max 1..6), every well-formed list shape <= 5 items "
          "x depth <= 3 x kinds, 24 combined documents (front matter, TOC, offsets) - enumerated by TLC with the expected "
          "parsed-back structure computed by Markdown.tla; each is rendered by every tabula Markdown writer that can express "
@@ -72,11 +83,23 @@ def dedupe(cases):
 def run(ctx):
     q = ctx.tier == "quick"
     # R1 + R2 generation: invariants (RoundTrip, HeadingLevelOK, PrefixStable) and case emission in one exhaustive run
+    # the negative controls and the history model run side by side with the large enumeration
+    pool = ThreadPoolExecutor(max_workers=8)
+    side = [pool.submit(ctx.tlc, "MarkdownMC", "Markdown_mc_impl_%s.cfg" % v, expect_violation=True, workers=2,
+                        extra=["-noGenerateSpecTE"]) for v in ("esc", "hdr", "hdrlast", "merge")]
+    side.append(pool.submit(ctx.tlc, "MdHistoryMC", "MdHistory_mc_impl.cfg", expect_violation=True, workers=2,
+                            extra=["-noGenerateSpecTE"]))
+    hruns = [pool.submit(ctx.tlc, "MdHistoryMC", cfg, workers=4, collect=True, timeout=1800, count=False)
+             for cfg in (["MdHistory_mc_quick.cfg"] if q else ["MdHistory_mc_thorough.cfg", "MdHistory_mc_wide.cfg"])]
     gen = ctx.tlc("MarkdownMC", "Markdown_mc_quick.cfg" if q else "Markdown_mc_thorough.cfg", workers=8,
                   collect=True, timeout=3000)
-    # negative controls: the three implementation-shaped writers must be refuted
-    for v in ("esc", "hdr", "merge"):
-        ctx.tlc("MarkdownMC", "Markdown_mc_impl_%s.cfg" % v, expect_violation=True, workers=4)
+    for f in side:
+        f.result()              # re-raises the MachineryError of a control that was not refuted
+    ctx.hist_runs = [f.result() for f in hruns]
+    pool.shutdown()
+    for r in ctx.hist_runs:      # counted here, in one thread
+        ctx.states += r["distinct"]
+        ctx.transitions += r["generated"]
     cases = dedupe(gen["cases"])
     if not cases:
         raise vlib.MachineryError("MarkdownMC emitted no cases")
@@ -170,11 +193,9 @@ def histories(ctx, q):
     """Purity of rendering (MdHistory.tla): histories of calls on ONE reader; every call must return what the
     specification says a freshly opened reader returns for its options."""
     # R1: every history up to MaxLen over the call alphabet keeps Purity / CacheFaithful; the write-back reader is refuted
-    runs = [("MdHistory_mc_quick.cfg", 8)] if q else [("MdHistory_mc_thorough.cfg", 8), ("MdHistory_mc_wide.cfg", 8)]
     cases = []
-    for cfg, wk in runs:
-        cases += ctx.tlc("MdHistoryMC", cfg, workers=wk, collect=True, timeout=1800)["cases"]
-    ctx.tlc("MdHistoryMC", "MdHistory_mc_impl.cfg", expect_violation=True, workers=4)
+    for r in ctx.hist_runs:
+        cases += r["cases"]
     cases = dedupe(cases)
     if not cases:
         raise vlib.MachineryError("MdHistoryMC emitted no histories")
